@@ -1,4 +1,6 @@
 package main
 
 // runMutants is implemented in mutants_run.go once seeded patches exist.
-func runMutants(c *Ctx, verif, repo string, extra map[string]any) { runMutantsImpl(c, verif, repo, extra) }
+func runMutants(c *Ctx, verif, repo string, extra map[string]any) {
+	runMutantsImpl(c, verif, repo, extra)
+}
